@@ -6,7 +6,7 @@
    handle cap), every piece length and every initial handle table.
    Chunk arithmetic: count = ceil(size / L), only the last chunk may be shorter.
    The hash function is a parameter (any H); see DESIGN.md for the pipeline part. *)
-From Torf Require Import Base Extracted Geometry Stream ChunkProofs IterProofs Pipeline PipelineProofs FlowProofs DrainProofs CompleteProofs.
+From Torf Require Import Base Extracted Geometry Stream ChunkProofs IterProofs Pipeline PipelineProofs FlowProofs DrainProofs CompleteProofs C01Pipeline.
 Open Scope Z_scope.
 
 Theorem C01_items : forall d L fs h,
@@ -54,10 +54,7 @@ Theorem C01_pipeline : forall (hid : bytes -> Z) d L fs c s,
   cf_verify c = None -> cf_total c = Pipeline.zlen (chunks L (stream_of d fs)) ->
   reach c s -> s_result s = Some ResTrue ->
   sorted_hashes (s_hashes s) = map hid (chunks L (stream_of d fs)).
-Proof.
-  intros hid d L fs c s HY Hv Ht Hr Hres. apply (true_means_reference c s (map hid (chunks L (stream_of d fs))) Hr Hv); [|unfold Pipeline.zlen in *; rewrite map_length; exact Ht|exact Hres].
-  rewrite HY, map_map. reflexivity.
-Qed.
+Proof. exact pipeline_reference. Qed.
 Print Assumptions C01_pipeline.
 
 (* UNBOUNDED, the other direction: a hashing run over readable content that returns a verdict without having been told
@@ -71,12 +68,7 @@ Theorem C01_unstopped_run_stores_reference : forall (hid : bytes -> Z) d L fs c 
   cf_verify c = None -> cf_total c = Pipeline.zlen (chunks L (stream_of d fs)) ->
   reach c s -> s_result s = Some r -> verdict r -> s_stop s = false ->
   r = ResTrue /\ sorted_hashes (s_hashes s) = map hid (chunks L (stream_of d fs)).
-Proof.
-  intros hid d L fs c s r Hn HY Hv Ht Hr Hres Hvd Hs.
-  apply (unstopped_generate_stores_reference c s r (map hid (chunks L (stream_of d fs))) Hn Hr Hv); try assumption.
-  - rewrite HY, map_map. reflexivity.
-  - unfold Pipeline.zlen in *. rewrite map_length. exact Ht.
-Qed.
+Proof. exact unstopped_run_reference. Qed.
 Print Assumptions C01_unstopped_run_stores_reference.
 
 (* non-vacuity: 3 files, boundary inside the second file, L = 4 *)
